@@ -18,5 +18,6 @@
   int i = 0, n = 0; double real = 0; svalue_t *lval = 0; int instruction = F_RINDEX; unsigned short offset = 0;
 @*/
 #define IX_KINDS(k) ((k) == 0 || (k) == 2)
+#define IX_FIRST_KIND 0
 #define IX_ENTRY h_op_index
 #include "c01_index.h"
